@@ -165,6 +165,8 @@ theorem pure_eq {α} (a : α) : (pure a : M α) = Except.ok a := rfl
 theorem bind_ite {α β} (c : Prop) [Decidable c] (x y : M α) (f : α → M β) :
     ((if c then x else y) >>= f) = if c then x >>= f else y >>= f := by split <;> rfl
 
+theorem bool_eq_false (b : Bool) : (b = false) = ¬ (b = true) := by cases b <;> simp
+
 theorem pyAssert_true : pyAssert true = .ok () := rfl
 theorem pyAssert_false : pyAssert false = .error .assert_ := rfl
 theorem pyAssert_eq (b : Bool) : pyAssert b = if b = true then .ok () else .error .assert_ := by
@@ -266,6 +268,14 @@ theorem ne_mk (s t : Ty) (x y : Int) : Num.ne ⟨s, x⟩ ⟨t, y⟩ = decide (x 
 theorem truthy_mk (t : Ty) (x : Int) : Num.truthy ⟨t, x⟩ = decide (x ≠ 0) := rfl
 theorem min_mk (s t : Ty) (x y : Int) : Num.min ⟨s, x⟩ ⟨t, y⟩ = if y < x then .ok ⟨t, y⟩ else .ok ⟨s, x⟩ := rfl
 theorem max_mk (s t : Ty) (x y : Int) : Num.max ⟨s, x⟩ ⟨t, y⟩ = if y > x then .ok ⟨t, y⟩ else .ok ⟨s, x⟩ := rfl
+
+/-- operands of the same tag: no case split needed -/
+theorem min_same (t : Ty) (x y : Int) : Num.min ⟨t, x⟩ ⟨t, y⟩ = .ok ⟨t, min x y⟩ := by
+  unfold Num.min; simp only; split <;> (congr 2; omega)
+theorem max_same (t : Ty) (x y : Int) : Num.max ⟨t, x⟩ ⟨t, y⟩ = .ok ⟨t, max x y⟩ := by
+  unfold Num.max; simp only; split <;> (congr 2; omega)
+
+theorem pyLen_eq {α : Type} (l : List α) : pyLen l = ⟨.py, (l.length : Int)⟩ := rfl
 
 theorem cast_py (t : Ty) (x : Int) :
     Num.cast t ⟨.py, x⟩ = if t.fits x then .ok ⟨t, x⟩ else .error .overflow := rfl
@@ -381,9 +391,9 @@ macro "py_exec" "[" defs:Lean.Parser.Tactic.simpLemma,* "]" : tactic =>
       lift_ok, lift_err, castErr_py, castErr_i32, castErr_i64, wrap_eq_self, wrap_py, wrap_i8, wrap_i16, wrap_i32, wrap_i64, wrap_u8, wrap_u16, wrap_u32, coerce2_py_py, coerce2_py_np, coerce2_np_py, coerce2_np_np, promote,
       add_mk, sub_mk, mul_mk, and_mk, or_mk, xor_mk, floordiv_mk, mod_mk, shl_mk, shr_mk, pow_mk,
       neg_mk, pos_mk, invert_mk, abs_mk, int_mk, lt_mk, le_mk, gt_mk, ge_mk, eq_mk, ne_mk, truthy_mk,
-      min_mk, max_mk, cast_py, cast_np, fdiv_pos, fmod_pos, Ty.bits, iand_mask, iand_two_pow,
+      min_same, max_same, min_mk, max_mk, pyLen_eq, cast_py, cast_np, fdiv_pos, fmod_pos, Ty.bits, iand_mask, iand_two_pow,
       ite_true, ite_false, if_true, if_false, fits_eq_true, fits_eq_false, true_and, and_true, and_self, not_true_eq_false, not_false_eq_true,
-      Bool.and_eq_true, Bool.or_eq_true, Bool.not_eq_true', decide_eq_true_eq, decide_eq_false_iff_not, beq_iff_eq, bne_iff_ne,
+      Bool.and_eq_true, Bool.or_eq_true, Bool.not_eq_true', bool_eq_false, decide_eq_true_eq, beq_iff_eq, bne_iff_ne,
       Bool.true_and, Bool.and_true, Bool.false_or, Bool.or_false, Bool.not_true, Bool.not_false,
       decide_true, decide_false, reduceCtorEq, ne_eq, not_false_eq_true, not_true_eq_false,
       Int.reduceNeg, Int.reducePow, Int.reduceMul, Int.reduceAdd, Int.reduceSub, Int.reduceToNat,
